@@ -128,6 +128,29 @@ def r_chain_guards(ck: Checker) -> None:
         "chain(" in arg and ".condition,lits_with_vars" in arg and ".terms[0]" in arg
     )
     ck.add("domain = weight under (element condition + connected body literals)", ok, func, adr[0], f"`{short(arg, 160)}`", "C20: the domain must cover every value the aggregate can take")
+    # the rewritten statement refers to the result predicate: the rules defining it (for THIS statement's group literals)
+    # are built on every path that rewrites, and returned with it
+    ro = resolved_calls(ck.prg, func, f"ngo.{CLS}.replace_orig")
+    ck.need(len(ro) >= 1, "_chain_translation rewrites the statement with replace_orig")
+    itm = ck.interp(func, None, mark_stmts={id(enclosing_stmt(func, site)): "defined", id(enclosing_stmt(func, adr[0])): "domain"})
+    for r_ in ro:
+        sts = itm.states(r_)
+        okm = bool(sts) and all({"defined", "domain"} <= set(s.marks) for s in sts)
+        rstm = enclosing_stmt(func, r_)
+        carried = False
+        if isinstance(rstm, ast.Return) and isinstance(rstm.value, ast.BinOp) and isinstance(rstm.value.op, ast.Add):
+            left = itm.texts(rstm, rstm.value.left)
+            carried = bool(left) and all(t.startswith("self._create_aggregate_replacement(") for t in left)
+        ck.add("the statement is rewritten only together with the chain rules built for it", okm and carried, func, r_, f"domain rule and replacement rules built on every path to `{short(unparse(rstm), 70)}`: {okm}; returned in front of the rewritten statement: {carried}",
+               "the result predicate's rules depend on the body literals that bind the group variables: a chain built for another rule (or none) gives the aggregate's value for the wrong groups")
+    # one chain per translated statement: the name that keys domain, chain and result predicate is built from the
+    # statement's own position (known finding A-11: two statements on one line still collide; the aggregate's position is
+    # strictly worse, a wrapped rule ends where the next one starts)
+    nn = single_def(func, "new_name")
+    parts_ = [unparse(v.value) for v in nn.values if isinstance(v, ast.FormattedValue)] if isinstance(nn, ast.JoinedStr) else []
+    pos = [x for x in parts_ if "location" in x]
+    ck.add("the result predicate is named after the position of the statement it is built for", bool(pos) and all(re.fullmatch(rf"(str\()?{rule}\.location\.begin\.line\)?", x) for x in pos), func, func.node,
+           f"name components {parts_}", "rules defining `__max_0_<n>` are registered once per name: two statements that get the same name share one domain and one chain, and their maxima merge")
     same = unparse(it.expand(site.args[4], it.states(site)[0]))
     ck.add("replacement uses the same connected literals", same == "lits_with_vars", func, site, f"lits_with_vars argument `{same}`", "")
     # split of the body: a literal stays with the aggregate iff it shares a variable with it
